@@ -89,6 +89,9 @@ def match_known(known, prop, v):
     return None
 
 
+MIN_RUNS = 100
+
+
 def _work(args):
     from . import checks
 
@@ -97,7 +100,8 @@ def _work(args):
     bt = _BT
     out = dict(n=0, viol=[], fired=collections.Counter(), nontrivial=set(), states=set(), bigrams=set(), info=collections.Counter(), sample=None, sim_dates=0, steps=0, errors=[])
     for i in idxs:
-        if time.time() > wall_deadline:
+        if time.time() > wall_deadline and i >= MIN_RUNS:
+            # (the first MIN_RUNS indices are explored whatever the load of the machine: a batch is never empty)
             break
         r = rng.run_rng(master, prop, i)
         rng.pin_globals(rng.derive(master, prop, i, "g"))
@@ -332,6 +336,12 @@ def main_check(spec, tier, master):
         pools.close()
         return 2
     t_search = time.time() - t0
+    if agg["n"] == 0:
+        for i, tb in errors[:3]:
+            print("HARNESS-ERROR in run %d:\n%s" % (i, tb))
+        print("HARNESS-ERROR: no run completed - nothing was explored, so nothing is claimed")
+        pools.close()
+        return 2
     # ---- classify
     own = [v for v in viols if spec.owns(v["check"])]
     foreign = [v for v in viols if not spec.owns(v["check"])]
